@@ -703,3 +703,16 @@ func verifC09Rank(rx, ry, rz int) {}
 //@   modifies keys, heap(Projection)
 //@   ensures forall a int :: 0 <= a < len(keys) ==> exists b int :: 0 <= b < len(keys) && keys[a] == old(keys[b])
 //@   ensures forall b int :: 0 <= b < len(keys) ==> exists a int :: 0 <= a < len(keys) && keys[a] == old(keys[b])
+
+// newExtractorFullName: what the loop over the excluded keys computes, stated as
+// its invariants: .name and /gomaxprocs are excluded exactly when they are listed
+// (wherever in the list), and one deletion prefix is kept per listed sub-name key.
+//@ func newExtractorFullName(exclude []string) (e extractor)
+//@   props C08
+//@   opt allocates
+//@   loop 1:
+//@     invariant 0 <= idx() <= len(exclude) && unchanged() && (delete == nil || fresh(delete)) && len(delete) <= idx()
+//@     invariant excName <==> (exists j int :: 0 <= j < idx() && exclude[j] == ".name")
+//@     invariant excGomaxprocs <==> (exists j int :: 0 <= j < idx() && exclude[j] == "/gomaxprocs")
+//@     invariant (exists j int :: 0 <= j < idx() && strings.HasPrefix(exclude[j], "/")) ==> len(delete) >= 1
+//@     decreases len(exclude) - idx()
